@@ -1,6 +1,9 @@
 ---------------------------- MODULE MC_ExprChars ----------------------------
-(* E3 of C03 / C10: every character string up to MaxLen over two alphabets that exercise the lexer: number formats
-   and suffixes ("num"), names with subscripts, tensor indices and primes ("name"). *)
+(* E3 of C03 / C10: every character string up to MaxLen over three alphabets that exercise the lexer: number formats
+   and suffixes ("num"), names with subscripts, tensor indices and primes ("name"), and characters the formula language
+   does not have ("foreign": FD a digit of another script, FL a letter of another script, FS a symbol; the adapter renders
+   each as one of several real characters.  White-space characters other than space / tab / line break are left out:
+   the statement does not say whether they are white space or foreign, and the library strips them at both ends). *)
 EXTENDS ExprLexer
 CONSTANTS MaxLen, Which
 MCVarVal == ("x" :> <<5, 1>> @@ "x1" :> <<7, 1>> @@ "x_1" :> <<11, 1>> @@ "x'" :> <<13, 1>> @@ "x_{1}" :> <<17, 1>>
@@ -8,8 +11,10 @@ MCVarVal == ("x" :> <<5, 1>> @@ "x1" :> <<7, 1>> @@ "x_1" :> <<11, 1>> @@ "x'" :
              @@ "x_" :> <<37, 1>> @@ "x11" :> <<41, 1>> @@ "x''" :> <<43, 1>> @@ "x1'" :> <<47, 1>>)
 MCFuncArity == ("f" :> 1 @@ "g" :> 2)
 MCSufVal == ("k" :> <<1000, 1>> @@ "%" :> <<1, 100>>)
+Foreign == {"FD", "FL", "FS"}
 Alphabet == IF Which = "num" THEN {"1", "2", ".", "e", "E", "+", "-", "k", "%", "x"}
-            ELSE {"x", "1", "_", "{", "}", "^", "-", "'", "+", "TAB"}
+            ELSE IF Which = "name" THEN {"x", "1", "_", "{", "}", "^", "-", "'", "+", "TAB"}
+            ELSE {"1", "x", "+", "(", ")", "TAB"} \cup Foreign
 RECURSIVE SeqsOfLen(_)
 SeqsOfLen(n) == IF n = 0 THEN {<<>>} ELSE {Append(s, a) : s \in SeqsOfLen(n - 1), a \in Alphabet}
 UpTo(n) == UNION {SeqsOfLen(j) : j \in 0..n}
@@ -29,5 +34,7 @@ IsCase == c.kind = "case"
 \* checked in the simplest form -- leading and trailing whitespace is transparent
 LawOuterWS == IsCase => OutcomeC(<<"TAB">> \o c.chars \o <<"TAB">>) = out
 \* a string is rejected as unbalanced iff its brackets do not match, whatever else it contains
+\* "foreign characters ... are rejected with a parse error rather than given some value"
+LawForeignRejected == IsCase /\ (\E i \in 1..Len(c.chars) : c.chars[i] \in Foreign) => out.c \in {"parse", "unbalanced"}
 LawUnbalancedFirst == IsCase /\ ~IsBlank(c.chars) => ((out.c = "unbalanced") <=> ~BalS(BracketsOf(c.chars), 1, <<>>))
 =============================================================================
